@@ -918,6 +918,44 @@ impl<'a> Gen<'a> {
         format!("def {v} := {e}\n")
     }
 
+    /// A line that is ill-typed only because of a definition in ANOTHER (visible) file: a
+    /// foreign class constructed, or a foreign function called, with a wrongly typed argument.
+    pub fn cross_fault_line(&mut self, tag: &str) -> Option<String> {
+        let wrong = |t: &Ty| if *t == Ty::Str { "7".to_string() } else { "\"wrong\"".to_string() };
+        let classes: Vec<usize> = self.foreign_plain_classes().into_iter().filter(|&c| !self.classes[c].args.is_empty() && !self.classes[c].args[0].3).collect();
+        let funs: Vec<usize> = (0..self.funs.len())
+            .filter(|&i| {
+                self.fun_file.get(i).map(|f| *f != self.cur_file && self.visible_files.contains(f)).unwrap_or(false)
+                    && !self.funs[i].params.is_empty()
+                    && !matches!(self.funs[i].params[0].1, Ty::Class(_))
+                    && self.funs[i].raises.is_empty()
+            })
+            .collect();
+        if !funs.is_empty() && (classes.is_empty() || self.rng.chance(1, 2)) {
+            let f = self.funs[*self.rng.pick(&funs)].clone();
+            let mut args = vec![wrong(&f.params[0].1)];
+            for (_, t, d) in f.params.iter().skip(1) {
+                if *d {
+                    break;
+                }
+                args.push(self.lit(t));
+            }
+            return Some(format!("def {tag}xbad := {}({})\n", f.name, args.join(", ")));
+        }
+        if !classes.is_empty() {
+            let c = self.classes[*self.rng.pick(&classes)].clone();
+            let mut args = vec![wrong(&c.args[0].1)];
+            for (_, t, _, d) in c.args.iter().skip(1) {
+                if *d {
+                    break;
+                }
+                args.push(self.lit(t));
+            }
+            return Some(format!("def {tag}xbad := {}({})\n", c.name, args.join(", ")));
+        }
+        None
+    }
+
     pub fn call_line(&mut self, fi: usize) -> String {
         let f = self.funs[fi].clone();
         let v = self.fresh("call");
